@@ -167,9 +167,16 @@ Definition channel_narrow (tol dist : Q) (boxes : list box) (cs : list sconn) (s
   | _ => false
   end.
 
+(* a segment that cannot be shifted: a first/last segment, a segment through a checkpoint, or a segment whose own channel
+   (walls taken over its whole extent, since it moves as a whole) is too narrow for the segments running in it - e.g. a
+   segment squeezed between two rectangle sides at the same coordinate *)
+Definition stuck (tol dist : Q) (boxes : list box) (all : list sconn) (d : dseg) : bool :=
+  immovable d || channel_narrow tol dist boxes all (d_s d) (d_s d).
+
 Definition pair_ok (tol dist : Q) (boxes : list box) (all : list sconn) (a b : sconn) : bool :=
   common_end a b ||
-  forallb (fun s => forallb (fun t => negb (seg_overlap tol (d_s s) (d_s t)) || (immovable s && immovable t)
+  forallb (fun s => forallb (fun t => negb (seg_overlap tol (d_s s) (d_s t))
+                                      || (stuck tol dist boxes all s && stuck tol dist boxes all t)
                                       || channel_narrow tol dist boxes all (d_s s) (d_s t)) (dsegs b))
           (dsegs a).
 
@@ -223,7 +230,8 @@ Record scene_spec (tol dist : Q) (boxes : list box) (cs : list sconn) : Prop := 
   sp_overlap : forall i j a b, (i < j)%nat -> nth_error cs i = Some a -> nth_error cs j = Some b ->
       common_end a b = false ->
       forall s t, In s (dsegs a) -> In t (dsegs b) -> overlapping tol (d_s s) (d_s t) ->
-        (immovable s = true /\ immovable t = true) \/ channel_narrow tol dist boxes cs (d_s s) (d_s t) = true
+        (stuck tol dist boxes cs s = true /\ stuck tol dist boxes cs t = true) \/
+        channel_narrow tol dist boxes cs (d_s s) (d_s t) = true
 }.
 
 Theorem scene_ok_sound tol dist boxes cs : scene_ok tol dist boxes cs = true -> scene_spec tol dist boxes cs.
